@@ -68,9 +68,9 @@ func (t *Table) UpdateAttributeDefinition(attrs []*types.AttributeDefinition) er
 	for _, attr := range attrs {
 		name := types.StringValue(attr.AttributeName)
 
-		if declared, ok := t.AttributesDef[name]; ok && name != "" && inUse[name] && declared != types.StringValue(attr.AttributeType) {
+		if declared := t.AttributesDef[name]; inUse[name] && declared != types.StringValue(attr.AttributeType) {
 			return types.NewError("ValidationException",
-				fmt.Sprintf("attribute %q is a key attribute of type %s and cannot be redefined as %s", name, declared, types.StringValue(attr.AttributeType)), nil)
+				fmt.Sprintf("attribute %q is a key attribute of type %q and cannot be redefined as %q", name, declared, types.StringValue(attr.AttributeType)), nil)
 		}
 	}
 
